@@ -162,6 +162,9 @@ def _init_worker(yardl_bin, workroot):
     import warnings
     warnings.filterwarnings("ignore")
     os.environ["PYTHONHASHSEED"] = "0"
+    # generated Python that asks for an absurd amount of memory gets MemoryError (an error it reports)
+    import resource
+    resource.setrlimit(resource.RLIMIT_AS, (12 << 30, 12 << 30))
 
 
 def _run_task(args):
